@@ -38,15 +38,39 @@ func (c *Client) keepaliveLoop(ctx context.Context) error {
 	ticker.Stop()
 	defer ticker.Stop()
 
+	// The keep-alive ping in flight (if any).  The loop must not block
+	// waiting for it: it must keep consuming state changes (otherwise
+	// notifyStateChange blocks its callers, e.g. the receive loop) and must
+	// notice ctx cancellation.
+	var ping *pingTransaction
+	var pingDone <-chan struct{}
+
 	for {
 		select {
 		case <-ticker.C:
-			if err := c.Ping(); err != nil {
+			if ping != nil {
+				// The previous keep-alive ping is still being retried.
+				continue
+			}
+			ping = c.startPing()
+			pingDone = ping.Done()
+
+		case <-pingDone:
+			err := ping.Err()
+			ping, pingDone = nil, nil
+			if err != nil {
 				return err
 			}
 
 		case state := <-c.stateChangeCh:
 			ticker.Stop()
+			if ping != nil {
+				// The client is not active anymore (or has just
+				// reconnected) => abandon the keep-alive ping, do not
+				// retransmit it in sleeping or disconnected state.
+				ping.Success()
+				ping, pingDone = nil, nil
+			}
 			if state != util.StateActive {
 				continue
 			}
